@@ -153,7 +153,8 @@ type httpResult struct {
 	ended    time.Duration
 	done     bool
 	sentAll  bool
-	alone    bool // no other exchange was in flight when it started
+	alone    bool          // no other exchange was in flight when it started
+	sentDone time.Duration // when the last byte of the request had been written
 }
 
 type c16Plan struct {
@@ -432,6 +433,7 @@ func runC16(c *runCtx) {
 				k++
 			}
 			res.sentAll = sent == len(req)
+			res.sentDone = r.sim.Now()
 			if spec.StallMs > 0 {
 				// a client that has gone to sleep with the connection open
 				time.Sleep(time.Duration(clampInt(spec.StallMs, 0, 600000)) * time.Millisecond)
@@ -565,6 +567,15 @@ func runC16(c *runCtx) {
 			stalled = true
 		}
 		c.count("status."+strconv.Itoa(status), 1)
+		// the read timeout bounds the whole request: one that needed more than 10 s to arrive - with nobody
+		// else keeping the server from accepting it at once - cannot have been read completely
+		if res.alone && res.sentAll && status == 200 && (res.class == "post-valid" || res.class == "get") && res.spec.LenMode == 0 &&
+			!res.spec.TrailCRLF && res.spec.PadKB == 0 && res.sentDone-res.started > 11*time.Second {
+			c.violate("c16.read_timeout", "request %d (%s) took %v to arrive (the server was free to accept it at once) and was answered 200: the read timeout of 10 s is for the request as a whole", i, res.class, res.sentDone-res.started)
+		}
+		if res.sentDone-res.started > 11*time.Second {
+			c.count("probe.request_longer_than_read_timeout", 1)
+		}
 		switch res.class {
 		case "get":
 			if stalled && (status == 400 || status == 401) {
